@@ -54,26 +54,32 @@ Definition w_alt_next := Rule (cnd CLe 1) (Some 0) [(KAlt, leafr CEq 3 1); (KNex
 Definition model_tags (prog : rule) (W : list elem) : list (nat * nat) :=
   match model prog W with Some rows => match singles rows with Some xs => xs | None => [] end | None => [] end.
 
-Lemma refuted_alt3 : agrees w_alt3 W8 = false /\ In (2, 2) (rdr w_alt3 W8) /\ ~ In (2, 2) (model_tags w_alt3 W8).
-Proof. split; [vm_compute; reflexivity|]. split; [vm_compute; tauto|]. vm_compute. intuition congruence. Qed.
-Lemma refuted_ref_nested :
-  (agrees w_refref W8 = false /\ In (2, 3) (rdr w_refref W8) /\ ~ In (2, 3) (model_tags w_refref W8)) /\
-  (agrees w_altref W8 = false /\ In (2, 3) (rdr w_altref W8) /\ ~ In (2, 3) (model_tags w_altref W8)).
-Proof.
-  split; (split; [vm_compute; reflexivity|]; split; [vm_compute; tauto|]; vm_compute; intuition congruence).
-Qed.
-Lemma refuted_ref_second :
-  (agrees w_ref2 W8 = false /\ In (2, 2) (rdr w_ref2 W8) /\ ~ In (2, 2) (model_tags w_ref2 W8)) /\
-  (agrees w_alt_ref W8 = false /\ In (1, 1) (rdr w_alt_ref W8) /\ ~ In (1, 1) (model_tags w_alt_ref W8)).
-Proof.
-  split; (split; [vm_compute; reflexivity|]; split; [vm_compute; tauto|]; vm_compute; intuition congruence).
-Qed.
+(* C08-a/b/c were defects of the surgery before commit 4511011; on the current code these programs are in the
+   fragment and the model's run is the Spec's answer (regression witnesses) *)
+Lemma fixed_surgery :
+  (Fb w_alt3 = true /\ agrees w_alt3 W8 = true /\ In (2, 2) (model_tags w_alt3 W8)) /\
+  (Fb w_refref = true /\ agrees w_refref W8 = true /\ In (2, 3) (model_tags w_refref W8)) /\
+  (Fb w_altref = true /\ agrees w_altref W8 = true /\ In (2, 3) (model_tags w_altref W8)) /\
+  (Fb w_ref2 = true /\ agrees w_ref2 W8 = true /\ In (2, 2) (model_tags w_ref2 W8)) /\
+  (Fb w_alt_ref = true /\ agrees w_alt_ref W8 = true /\ In (1, 1) (model_tags w_alt_ref W8)).
+Proof. repeat split; try (vm_compute; reflexivity); vm_compute; tauto. Qed.
 Lemma refuted_next :
   (Gb w_next = true /\ agrees w_next W8 = false /\ In (1, 1) (rdr w_next W8) /\ ~ In (1, 1) (model_tags w_next W8)) /\
   (Gb w_alt_next = true /\ agrees w_alt_next W8 = false /\ In (2, 1) (rdr w_alt_next W8) /\ ~ In (2, 1) (model_tags w_alt_next W8)).
 Proof.
   split; (split; [vm_compute; reflexivity|]; split; [vm_compute; reflexivity|]; split; [vm_compute; tauto|];
           vm_compute; intuition congruence).
+Qed.
+
+(* C08-g: an alternative written after a next_rule fires also for the elements for which the base rule fired
+   (Next is a Union: its second pass yields a false row, which the enclosing Alternative takes as "nothing fired") *)
+Definition w_next_alt := Rule (cnd CLe 1) (Some 0) [(KNext, leafr CEq 3 1); (KAlt, leafr CLe 4 2)].
+Lemma refuted_next_alt :
+  Gb w_next_alt = true /\ agrees w_next_alt W8 = false /\
+  ~ In (2, 0) (rdr w_next_alt W8) /\ In (2, 0) (model_tags w_next_alt W8).
+Proof.
+  split; [vm_compute; reflexivity|]. split; [vm_compute; reflexivity|]. split; [vm_compute; intuition congruence|].
+  vm_compute. tauto.
 Qed.
 
 (* ---- Part B: assembling the theorem on the fragment ---- *)
@@ -179,32 +185,32 @@ Lemma tlevel_leaves r : forall k a,
   forall q, In q (rules_of r) -> In (leaf_of q) (leaves (tlevel k r a)).
 Proof.
   induction r as [cs tg body IH] using rule_ind'. intros k a.
-  assert (Hexc : forall a0,
-     incl (oleaves a0) (oleaves ((fix rf (l : list (kind * rule)) (a : option tree) {struct l} : option tree :=
-               match l with
-               | [] => a
-               | (KRef, q) :: l' => rf l' (Some (tlevel KAlt q a))
-               | _ :: l' => rf l' a
-               end) body a0)) /\
+  assert (Hexc :
+     In (cs, tag_list tg) (leaves ((fix rf (l : list (kind * rule)) {struct l} : tree :=
+                   match l with
+                   | [] => Leaf 0 cs (tag_list tg)
+                   | (KRef, q) :: l' => Node 0 SExc (rf l') (tlevel KAlt q None)
+                   | _ :: l' => rf l'
+                   end) body)) /\
      forall k0 q0 q, In (k0, q0) body -> k0 = KRef -> In q (rules_of q0) ->
-        In (leaf_of q) (oleaves ((fix rf (l : list (kind * rule)) (a : option tree) {struct l} : option tree :=
-               match l with
-               | [] => a
-               | (KRef, q) :: l' => rf l' (Some (tlevel KAlt q a))
-               | _ :: l' => rf l' a
-               end) body a0))).
-  { induction body as [|[k0 q0] body IHb]; intros a0.
-    - split; [apply incl_refl|intros ? ? ? []].
-    - inversion IH as [|? ? Hq Hrest]; subst. specialize (IHb Hrest). simpl in Hq.
+        In (leaf_of q) (leaves ((fix rf (l : list (kind * rule)) {struct l} : tree :=
+                   match l with
+                   | [] => Leaf 0 cs (tag_list tg)
+                   | (KRef, q) :: l' => Node 0 SExc (rf l') (tlevel KAlt q None)
+                   | _ :: l' => rf l'
+                   end) body))).
+  { induction body as [|[k0 q0] body IHb].
+    - split; [simpl; auto|intros ? ? ? []].
+    - inversion IH as [|? ? Hq Hrest]; subst. specialize (IHb Hrest). simpl in Hq. destruct IHb as [I1 I2].
       destruct k0.
-      + destruct (IHb (Some (tlevel KAlt q0 a0))) as [I1 I2]. destruct (Hq KAlt a0) as [Q1 Q2]. split.
-        * intros x Hx. apply I1. simpl. apply Q1. exact Hx.
+      + destruct (Hq KAlt None) as [_ Q2]. split.
+        * cbn [leaves]. apply in_or_app. left. exact I1.
         * intros k1 q1 q [E|Hin] Hk Hq1.
-          -- inversion E; subst. apply I1. simpl. apply Q2. exact Hq1.
-          -- eapply I2; eauto.
-      + destruct (IHb a0) as [I1 I2]. split; [exact I1|].
+          -- inversion E; subst. cbn [leaves]. apply in_or_app. right. apply Q2. exact Hq1.
+          -- cbn [leaves]. apply in_or_app. left. eapply I2; eauto.
+      + split; [exact I1|].
         intros k1 q1 q [E|Hin] Hk Hq1; [inversion E; subst; discriminate|eapply I2; eauto].
-      + destruct (IHb a0) as [I1 I2]. split; [exact I1|].
+      + split; [exact I1|].
         intros k1 q1 q [E|Hin] Hk Hq1; [inversion E; subst; discriminate|eapply I2; eauto]. }
   assert (Hsib : forall t0,
      incl (leaves t0) (leaves ((fix sib (l : list (kind * rule)) (t : tree) {struct l} : tree :=
@@ -237,15 +243,12 @@ Proof.
           -- inversion E; subst. apply I1. apply Q2. exact Hq1.
           -- eapply I2; eauto. }
   cbn [tlevel].
-  destruct (Hexc None) as [_ E2]. clear Hexc.
-  set (exc_t := (fix rf (l : list (kind * rule)) (a : option tree) {struct l} : option tree := _) body None) in *.
-  set (me := match exc_t with None => Leaf 0 cs (tag_list tg) | Some x => Node 0 SExc (Leaf 0 cs (tag_list tg)) x end).
+  destruct Hexc as [Hleaf E2].
+  set (me := (fix rf (l : list (kind * rule)) {struct l} : tree := _) body) in *.
   set (t0 := match a with None => me | Some a0 => Node 0 (sel_of k) a0 me end).
   destruct (Hsib t0) as [S1 S2]. clear Hsib.
   assert (Hme_in : incl (leaves me) (leaves t0)).
   { unfold t0. destruct a; simpl; [apply incl_appr|]; apply incl_refl. }
-  assert (Hleaf : In (cs, tag_list tg) (leaves me)).
-  { unfold me. destruct exc_t; simpl; auto. }
   split.
   - intros x Hx. apply S1. unfold t0. destruct a; simpl in *; [apply in_or_app; auto|destruct Hx].
   - intros q Hq. simpl in Hq. destruct Hq as [<-|Hq].
@@ -258,8 +261,7 @@ Proof.
         - destruct (IHb Hq) as [k1 [q1 [H1 H2]]]. exists k1, q1. split; [right; exact H1|exact H2]. }
       destruct Hex as [k0 [q0 [Hin Hq0]]].
       destruct k0.
-      * apply S1, Hme_in. specialize (E2 KRef q0 q Hin eq_refl Hq0).
-        unfold me. destruct exc_t; simpl in *; [right; exact E2|destruct E2].
+      * apply S1, Hme_in. exact (E2 KRef q0 q Hin eq_refl Hq0).
       * eapply S2; eauto. discriminate.
       * eapply S2; eauto. discriminate.
 Qed.
@@ -309,7 +311,15 @@ Theorem documented_shapes : forall c0 t0 c1 t1 c2 t2 c3 t3,
   Gb (Rule c0 t0 [(KRef, Rule c1 t1 [(KAlt, Rule c2 t2 [])]); (KAlt, Rule c3 t3 [])]) = true /\
   Gb (Rule c0 t0 [(KRef, Rule c1 t1 [(KRef, Rule c2 t2 []); (KAlt, Rule c3 t3 [])])]) = true /\
   Gb (Rule c0 t0 [(KAlt, Rule c1 t1 [(KAlt, Rule c2 t2 [(KAlt, Rule c3 t3 [])])])]) = true /\
-  Gb (Rule c0 t0 [(KNext, Rule c1 t1 [])]) = true.
+  Gb (Rule c0 t0 [(KNext, Rule c1 t1 [])]) = true /\
+  (* shapes that were built wrongly before commit 4511011 *)
+  Gb (Rule c0 t0 [(KAlt, Rule c1 t1 []); (KAlt, Rule c2 t2 []); (KAlt, Rule c3 t3 [])]) = true /\
+  Gb (Rule c0 t0 [(KRef, Rule c1 t1 [(KRef, Rule c2 t2 [])])]) = true /\
+  Gb (Rule c0 t0 [(KAlt, Rule c1 t1 [(KRef, Rule c2 t2 [])])]) = true /\
+  Gb (Rule c0 t0 [(KRef, Rule c1 t1 []); (KRef, Rule c2 t2 [])]) = true /\
+  Gb (Rule c0 t0 [(KAlt, Rule c1 t1 []); (KRef, Rule c2 t2 [])]) = true /\
+  Gb (Rule c0 t0 [(KRef, Rule c1 t1 []); (KRef, Rule c2 t2 []); (KAlt, Rule c3 t3 [])]) = true /\
+  Gb (Rule c0 t0 [(KAlt, Rule c1 t1 []); (KRef, Rule c2 t2 []); (KAlt, Rule c3 t3 [])]) = true.
 Proof. intros. destruct t0, t1, t2, t3; repeat split; shape. Qed.
 
 (* non-vacuity: a program of the fragment with a refinement carrying an alternative, followed by an alternative *)
